@@ -3,7 +3,7 @@ from __future__ import annotations
 
 import random
 
-from ..engine import monitors, reuse, suite
+from ..engine import monitors, overlap, reuse, suite
 from ..runner import Env, Outcome
 
 THEOREMS = ["C04_init_live", "C04_terminal_last", "C04_crash_unreachable", "C04_terminal_last_unconditional",
@@ -81,13 +81,36 @@ def _reuse_runs(env: Env, out: Outcome, n: int) -> None:
             out.violations.append(v)
 
 
+def _overlap_runs(env: Env, out: Outcome, n: int) -> None:
+    """2..3 consumers of ONE run's stream alive at the same time (owner reads through the terminal event, the others arrive
+    before / while / right after it is taken), every outcome kind: once the run has ended and the virtual loop is quiescent
+    every consumer has terminated (terminal event, left on its own, or refused); nothing delivered twice or lost"""
+    rng = random.Random(env.rng.randrange(1 << 30))
+    jobs = []
+    if env.replay is not None and isinstance(env.replay.get("payload", {}).get("case"), dict) and "overlap" in env.replay["payload"]["case"]:
+        jobs.append(env.replay["payload"]["case"]["overlap"])
+    jobs += [sc for item in suite.load_corpus("C04/overlap") for sc in item["scenarios"]]
+    jobs += [overlap.gen_scenario(rng) for _ in range(n)]
+    for sc in jobs:
+        vs, info = overlap.run_scenario(sc)
+        out.evaluations += 1
+        for k, v in info.items():
+            out.count(f"overlap:{k}", v)
+        out.count("overlap:kind:" + sc["kind"])
+        out.count("overlap:consumers", len(sc["consumers"]))
+        if len(sc["consumers"]) >= 2 and info.get("terminal_delivered"):
+            out.nontrivial(("overlap", repr(sc)))
+        out.violations += vs
+
+
 def run(env: Env) -> Outcome:
     out = Outcome()
     out.rule = ("direct (state,tick) pairs + live scripted workflows (steps that raise, return non-events, race with StopEvent, "
-                "cancel/timeout externals, raising retry policies in a tenth of the specs); run histories reusing one run_id on one runtime; non-trivial = more than 2 ticks; distinct by (spec, schedule)")
+                "cancel/timeout externals, raising retry policies in a tenth of the specs); run histories reusing one run_id on one runtime; several consumers of one run's stream alive at once (all four outcome kinds); non-trivial = more than 2 ticks; distinct by (spec, schedule)")
     suite.direct_corr(env, out, env.budget(3000, 60000))
-    suite.live_runs(env, out, env.budget(400, 8000), [monitors.mon_c04], extra_specs=suite.load_corpus("C04"),
+    suite.live_runs(env, out, env.budget(400, 8000), [monitors.mon_c04], extra_specs=[c for c in suite.load_corpus("C04") if "spec" in c],
                     mutate_spec=_raising)
     suite.live_runs(env, out, env.budget(120, 2400), [monitors.mon_c04], mutate_spec=_cancel_reporting)
     _reuse_runs(env, out, env.budget(150, 3000))
+    _overlap_runs(env, out, env.budget(250, 5000))
     return out
